@@ -932,7 +932,7 @@ class Message(ABC):
             value = self.__raw_get(name)
             if value is not PLACEHOLDER:
                 kwargs[name] = deepcopy(value)
-        return self.__class__(**kwargs)  # type: ignore
+        return self.__copy_internal_state(self.__class__(**kwargs))  # type: ignore
 
     def __copy__(self: T, _: Any = {}) -> T:
         kwargs = {}
@@ -940,7 +940,14 @@ class Message(ABC):
             value = self.__raw_get(name)
             if value is not PLACEHOLDER:
                 kwargs[name] = value
-        return self.__class__(**kwargs)  # type: ignore
+        return self.__copy_internal_state(self.__class__(**kwargs))  # type: ignore
+
+    def __copy_internal_state(self: T, copy: T) -> T:
+        # The constructor cannot know about unknown fields and takes lazily
+        # created default sub-messages for values that were set.
+        copy.__dict__["_serialized_on_wire"] = self._serialized_on_wire
+        copy.__dict__["_unknown_fields"] = self._unknown_fields
+        return copy
 
     @classproperty
     def _betterproto(cls: type[Self]) -> ProtoClassMetadata:  # type: ignore
